@@ -314,6 +314,12 @@ Fixpoint obs_eqb (a b : list obs) : bool :=
 
 Definition case_res := (list qrow * list (rstep * obs))%type.
 
+(* SUPERSEDED as a suite entry point (audit 2): the harness declares
+   Model2.run_res2h for suite "res"; [run_res] is evaluated by no suite any more
+   and is kept because it is the right-hand side of the bridge
+   C02_suite_res2_is_res (run_res2h k = run_res (erase_case_res k)) and the
+   function the statements C02_suite_res_states_reachable / C02_bound_suite_res
+   are about. *)
 Definition run_res (k : case_res) : option (list obs) :=
   let '(rows, script) := k in
   let m := run_rsteps rows (mkcfg rows) (init 0) (map fst script) in
@@ -391,6 +397,13 @@ Fixpoint eobs_eqb (a b : list eobs) : bool :=
 
 Definition case_eng := (list qrow * list (eev * eobs))%type.
 
+(* SUPERSEDED as a suite entry point (audit 2): the harness declares
+   Model3.run_eng3h for suite "eng" (C02_suite_eng3_is_eng2, then
+   C02_suite_eng2_ops / C02_suite_eng2_states_reachable tie it to [run_ops] /
+   reachable states of this file); [run_eng] is evaluated by no suite any more
+   and no theorem is stated about it; it is kept only as the record of the older
+   suite ([run_eevs] / [do_eev] above it are still used: Phased.eevs_state,
+   C02_suite_eng_states_reachable). *)
 Definition run_eng (k : case_eng) : option (list eobs) :=
   let '(rows, script) := k in
   let m := run_eevs rows (mkcfg rows) (init 0) (map fst script) in
